@@ -15,6 +15,8 @@ SPEC = {'id': 'C20',
      {'pkg': 'proxy/lib', 'test': 'TestVerifC20Proxy$', 'race': True, 'checklinkname': True, 'timeout': '10m'},
      {'pkg': 'common/turbotunnel', 'test': 'TestVerifC20Turbotunnel$', 'race': True, 'timeout': '10m'},
      {'pkg': 'client/lib', 'test': 'TestVerifC20Client$', 'race': True, 'checklinkname': True, 'timeout': '10m'},
+     {'pkg': 'server/lib', 'test': 'TestVerifC20Server$', 'race': True, 'checklinkname': True, 'timeout': '10m'},
+     {'pkg': 'common/event', 'test': 'TestVerifC20Event$', 'race': True, 'checklinkname': True, 'timeout': '10m'},
      # the workloads of the other checks, re-run under the race detector; only race reports count here
      {'pkg': 'broker', 'test': 'TestVerifC04$', 'race': True, 'race_only': True, 'tier': 'quick', 'timeout': '15m'},
      {'pkg': 'broker', 'test': 'TestVerifC14$', 'race': True, 'race_only': True, 'tier': 'quick', 'timeout': '30m'},
@@ -36,6 +38,8 @@ SPEC = {'id': 'C20',
              'client/lib/zz_verif_c15_test.go': 'c15_clientlib_test.go',
              'common/turbotunnel/zz_verif_c17_test.go': 'c17_turbotunnel_test.go',
              'common/turbotunnel/zz_verif_c20_test.go': 'c20_turbotunnel_test.go',
+             'server/lib/zz_verif_c20_test.go': 'c20_serverlib_test.go',
+             'common/event/zz_verif_c20_test.go': 'c20_event_test.go',
              'server/lib/zz_verif_c05_test.go': 'c05_serverlib_test.go',
              'server/lib/zz_verif_c18_test.go': 'c18_serverlib_test.go'},
  'rule': 'cases = (a) access rows of the regenerated table (one per shared variable x function x read/write x lockset), all '
@@ -45,7 +49,7 @@ SPEC = {'id': 'C20',
          'logMetrics loop and of the SIGHUP geoip reload and /debug + /prometheus scrapes running every few ms; the proxy '
          'traffic counter, periodic summary, tokens and NAT type driven from the goroutines that drive them in snowflake.go; '
          'the turbotunnel adapters driven like the server and the client drive them (carrier goroutines on QueueIncoming / OutgoingQueue, KCP on ReadFrom / WriteTo, receive and send queues running full, client-map sweeps with a 40 ms timeout, Close during traffic; RedialPacketConn with carriers that fail after a few writes and Close during a redial); the client Peers collection over real pion peers under collect / pop / read / write / close churn, NAT updates '
-         'and End() during churn; plus the harnesses of C04 (forced herds at timeout boundaries), C14 (the real broker binary, built with -race for this run, geoip databases loaded, SIGHUP every 40 ms while it serves the generated HTTP traffic), C17 (ClientMap / '
+         'and End() during churn; fresh server clientIDMap objects used by concurrent carriers and streams from their first operation on; the event dispatcher shared by client and proxy under concurrent dispatch and listener churn with a slow receiver; the real pollOffer against sessions handing back tokens; the real checkNATType against a local probe while the poll loop reads the NAT type; plus the harnesses of C04 (forced herds at timeout boundaries), C14 (the real broker binary, built with -race for this run, geoip databases loaded, SIGHUP every 40 ms while it serves the generated HTTP traffic), C17 (ClientMap / '
          'QueuePacketConn / RedialPacketConn), C05 and C18 (server sessions and carriers), C01 (whole client-server stack), '
          'C15 (Peers) and C16 (proxy sessions against a pion client) re-run under -race. One case = one driven flow / '
          'connection / round; every race report is a finding keyed by the first frames of both stacks inside the code '
@@ -77,3 +81,5 @@ SPEC = {'id': 'C20',
              'sync.Mutex / sync.RWMutex provide the well-formedness assumed by Hb.WF'],
  'assumptions': ['executions conform to the access table (accesses to the declared variables happen only at the listed sites with the listed locks held)',
                  'constructor-phase accesses are ordered before publication']}
+
+SPEC['thorough_passes'] = 3  # the thorough tier runs the whole harness under this many consecutive seeds
